@@ -8,7 +8,7 @@ import torch
 
 from .. import bmachine as bm
 from .. import seams, stubs
-from ..core import EventLog, Violation, fx, tdig, xf
+from ..core import EventLog, SkipCase, Violation, fx, tdig, xf
 
 FWD = [
     ("euler", "ito", stubs.NOISE, "none"), ("milstein", "ito", ("diagonal", "additive", "scalar"), "none"),
@@ -60,7 +60,7 @@ def run_case(case, keep_log=False):
     try:
         ts = torch.tensor([xf(t) for t in case["ts"]], dtype=tdt)
         if not bool((ts[1:] > ts[:-1]).all()):
-            raise Violation("harness_bad_case", None, None)
+            raise SkipCase()
         inner = torchsde.BrownianInterval(t0=float(ts[0]), t1=float(ts[-1]), size=(B, m), dtype=tdt,
                                           entropy=case["bm_seed"], levy_area_approximation=solver["levy"],
                                           cache_size=case["cache_size"])
@@ -114,6 +114,8 @@ def run_case(case, keep_log=False):
         fired = dict(plan.fired)
         if fired["miss"] or fired["drop"]:
             probes["repeat_after_fault"] += probes["adjoint_backward_requery"]
+    except SkipCase:
+        probes["skipped_degenerate_case"] = 1
     except Violation as v:
         violation = v.to_json()
     cs = case["cache_size"]
